@@ -65,6 +65,11 @@ C18_PARTS = [
      "args": {"quick": {"T": 3, "PX": 3, "variants": [[1, 1], [2, 2]]},
               "thorough": {"T": 3, "PX": 3, "variants": [[1, 1], [2, 1], [1, 2], [2, 2], [3, 2]]}},
      "trace": {"module": "TraceCandSeg.tla", "consts": {"T": "3", "PX": "3"}}},
+    # the same arrays with large, non-contiguous label values in a 16-bit array
+    {"name": "seg_biglabels", "driver": "cand_seg",
+     "args": {"quick": {"T": 3, "PX": 3, "variants": [[1, 1]], "labelmap": [0, 64, 1024, 256, 512, 3072, 4096]},
+              "thorough": {"T": 3, "PX": 3, "variants": [[1, 1], [2, 2]], "labelmap": [0, 64, 1024, 256, 512, 3072, 4096]}},
+     "trace": {"module": "TraceCandSeg.tla", "consts": {"T": "3", "PX": "3"}}},
 ]
 
 def _nm_part(table, req, qlen, tlen, tiers=("quick", "thorough")):
@@ -94,6 +99,11 @@ C13_PARTS = [
      "args": {"quick": {"T": 2, "PX": 2, "L": 3, "S": 2, "MaxNode": 3, "via": "df", "cap": 4},
               "thorough": {"T": 2, "PX": 2, "L": 3, "S": 2, "MaxNode": 3, "via": "df", "cap": 40}},
      "trace": {"module": "TraceRelabel.tla", "consts": _RL(2, 2, 3, 2, 3)}},
+    # one builder used twice: prepare(table, another array) then build(table, the array)
+    {"name": "relabel_builder", "driver": "relabel",
+     "args": {"quick": {"T": 2, "PX": 2, "L": 3, "S": 2, "MaxNode": 3, "via": "builder", "cap": 3},
+              "thorough": {"T": 2, "PX": 2, "L": 3, "S": 2, "MaxNode": 3, "via": "builder", "cap": 30}},
+     "trace": {"module": "TraceRelabel.tla", "consts": _RL(2, 2, 3, 2, 3)}},
     # the same with imported positions (the importer then validates the array against the graph first)
     {"name": "relabel_dfpos", "driver": "relabel",
      "args": {"quick": {"T": 2, "PX": 2, "L": 3, "S": 2, "MaxNode": 3, "via": "dfpos", "cap": 12},
@@ -106,8 +116,8 @@ C12_PARTS = [
      "design": {"module": "Import.tla", "invariants": ["Inv_Import"],
                 "consts": {"quick": {"MaxRows": "2", "Fixes": tlc.tla_set(["F11"])},
                            "thorough": {"MaxRows": "3", "Fixes": tlc.tla_set(["F11"])}}},
-     "args": {"quick": {"maxrows": 2, "variants": [["identity", "-1"], ["renamed", "nan"], ["identity", "empty"]]},
-              "thorough": {"maxrows": 3, "variants": [["identity", "-1"], ["renamed", "nan"], ["renamed", "empty"]]}},
+     "args": {"quick": {"maxrows": 2, "variants": [["identity", "-1"], ["renamed", "nan"], ["identity", "empty"], ["reindexed", "nan"]]},
+              "thorough": {"maxrows": 3, "variants": [["identity", "-1"], ["renamed", "nan"], ["renamed", "empty"], ["reindexed", "-1"]]}},
      "trace": {"module": "TraceImport.tla",
                "consts": {"quick": {"MaxRows": "2", "Fixes": tlc.tla_set(["F11"])},
                           "thorough": {"MaxRows": "3", "Fixes": tlc.tla_set(["F11"])}}}},
